@@ -51,6 +51,7 @@ def cases(ctx):
     n = 3000 if ctx.tier == "quick" else 150000
     out = [{"id": f"fix{i}", "i": i, "fixed": True} for i in range(200)]
     out += [{"id": f"h{i}", "i": i} for i in range(n)]
+    out.append({"id": "contracts-repo-tests", "kind": "contracts", "i": 0})
     return out
 
 
@@ -124,6 +125,9 @@ def _check_all(res, label, ents, groups, views, steps):
 
 
 def run_case(case, ctx, res):
+    if case.get("kind") == "contracts":
+        from .. import contracts
+        return contracts.judge_repo_tests(res, ctx, ["test_array.py", "test_vector.py", "test_datagroup.py", "test_dataset.py"], ("Array.__i", "Array.copy"))
     osy = ctx.osyris
     rng = (np.random.default_rng(np.random.SeedSequence([20240217, 17, case["i"]])) if case.get("fixed")
            else ctx.rng(case["i"]))
